@@ -3,22 +3,17 @@ from pyvc.speclang import *
 from specs.wire import *
 from specs.lemmas import *
 from specs.state import *
+from specs.connection import *
+from specs.api_entry import *
 
 
-# The dispatcher: one call per frame, recorded in the ghost log g_dispatched.  Its body is verified against
-# this contract in specs/dispatch.py (no exception escapes, _buffer untouched).
-@contract('mqtt.client.base.MQTTBaseProtocol._processPacket', name='log', props=['C03'], assumed=True)
-def _(self: Ref['mqtt.client.base.MQTTBaseProtocol'], packet: Bytes):
-    requires(is_list_bytes(self.g_dispatched))
-    modifies(all_but('_buffer'))
-    ghost_set(self.g_dispatched, as_list_bytes(self.g_dispatched) + lb(packet))
-    ensures(self.g_dispatched == old(as_list_bytes(self.g_dispatched)) + lb(packet))
-
-
-@contract('mqtt.client.base.MQTTBaseProtocol._accumulatePacket', props=['C03'])
-def _(self: Ref['mqtt.client.base.MQTTBaseProtocol'], data: Bytes):
+@contract('mqtt.client.base.MQTTBaseProtocol._accumulatePacket', props=['C03', 'C16'], classes=PROFILES)
+def _(self: Ref['mqtt.client.pubsubs.MQTTProtocol'], data: Bytes):
+    requires(is_obj(self.addr))
     requires(is_bytes(self._buffer) and is_list_bytes(self.g_dispatched))
-    modifies(all_but())
+    requires(any_state(self))
+    modifies(all_but(), callbacks())
+    ensures(any_state(self))
     ensures(self.g_dispatched == old(as_list_bytes(self.g_dispatched)) + frames(old(as_bytes(self._buffer)) + data))
     ensures(self._buffer == rem(old(as_bytes(self._buffer)) + data))
 
@@ -29,6 +24,8 @@ def _():
     D0 = old(as_list_bytes(self.g_dispatched))
     buf = as_bytes(self._buffer)
     invariant(is_none(length))
+    invariant(is_obj(self.addr))
+    invariant(any_state(self))
     invariant(is_bytes(self._buffer) and is_list_bytes(self.g_dispatched))
     invariant(D0 + frames(B0) == as_list_bytes(self.g_dispatched) + frames(buf))
     invariant(rem(B0) == rem(buf))
@@ -43,3 +40,15 @@ def _():
     invariant(1 <= lenLen and lenLen <= len(buf))
     invariant(scan(buf, lenLen) == scan(buf, 1))
     decreases(len(buf) - lenLen)
+
+
+@contract('mqtt.client.base.MQTTBaseProtocol.dataReceived', props=['C03', 'C16'], classes=PROFILES)
+def _(self: Ref['mqtt.client.pubsubs.MQTTProtocol'], data: Bytes):
+    """the data-receiving entry point: whatever the bytes, no exception escapes and the state invariant is kept"""
+    requires(is_obj(self.addr))
+    requires(is_bytes(self._buffer) and is_list_bytes(self.g_dispatched))
+    requires(any_state(self))
+    modifies(all_but(), callbacks())
+    ensures(any_state(self))
+    ensures(self.g_dispatched == old(as_list_bytes(self.g_dispatched)) + frames(old(as_bytes(self._buffer)) + data))
+    ensures(self._buffer == rem(old(as_bytes(self._buffer)) + data))
